@@ -14,6 +14,7 @@ import copy
 import functools
 import itertools
 import json
+import os
 import time
 
 from harness import c17_grid as G
@@ -124,14 +125,29 @@ def call(obj, entry, d):
     return canon(getattr(obj, entry)(d))
 
 
+def is_unsupported(e: Exception) -> bool:
+    """the library's own ways of saying "this dialect cannot do that": the decorator
+    unsupported_splink_dialects (ValueError "Dialect x is not supported for ...") and a dialect property
+    that is not implemented (NotImplementedError "Backend 'x' does not have a ... function")"""
+    if isinstance(e, NotImplementedError):
+        return "does not have" in str(e)
+    return isinstance(e, ValueError) and "is not supported for" in str(e)
+
+
 def supported(item, entry):
-    ok, why = [], {}
+    """dialects a fresh creator supports; any OTHER exception is a failure of the creator, not a refusal"""
+    ok, why, errors = [], {}, {}
     for d in G.DIALECTS:
         try:
             call(item["make"](), entry, d)
             ok.append(d)
         except Exception as e:
-            why[d] = f"{type(e).__name__}: {' '.join(str(e).split())[:90]}"
+            msg = f"{type(e).__name__}: {' '.join(str(e).split())[:90]}"
+            if is_unsupported(e):
+                why[d] = msg
+            else:
+                errors[d] = msg
+    why["__errors__"] = errors
     return ok, why
 
 
@@ -239,6 +255,84 @@ def cross_instance_checks(ctx, grid, start, start_shuffled, end, report):
     ctx.cov["isolated_wall_s"] = round(time.time() - t0, 1)
 
 
+def argument_cases(ctx, report):
+    """objects handed to a constructor / from_path_or_dict: unchanged afterwards (also after the entry methods ran),
+    the same specification built twice from them gives the same outputs, sharing = not sharing"""
+    n = 0
+    for case in G.arg_cases():
+        kind = case["kind"]
+        cls = case["label"].split("(")[0]
+
+        def outputs(obj):
+            res = {}
+            for entry in G.ENTRY[kind]:
+                for d in ("duckdb", "spark", "duckdb"):
+                    try:
+                        res[f"{entry}:{d}:{len(res)}"] = jsonable(call(obj, entry, d))
+                    except Exception as e:
+                        res[f"{entry}:{d}:{len(res)}"] = "ERR:" + type(e).__name__
+            return res
+        try:
+            args = case["make_args"]()
+            before = snapshot(args)
+            obj = case["build"](args)
+            cls = type(obj).__name__
+            built = snapshot(args)
+            o1 = outputs(obj)
+            after = snapshot(args)
+            o2 = outputs(case["build"](args))                  # second use of the same caller objects
+            ref = outputs(case["build"](case["make_args"]()))    # fresh caller objects
+            un = outputs(case["unshared"](case["make_args"]())) if case["unshared"] else None
+        except Exception as e:
+            report(cls, "<argument case raises>", f"{case['label']} raises {e!r}"[:300],
+                   {"case": {"specification": case["label"]}, "implementation": repr(e)[:300]}, {"raises": True})
+            continue
+        n += 1
+        ctx.count_case(("argument case", case["label"]), True, {"specification": case["label"]})
+        ch1 = [p for p in diff_paths(before, built) if p.split(".")[-1] != "sql_dialect"]
+        ch2 = [p for p in diff_paths(before, after) if p.split(".")[-1] != "sql_dialect"]
+        if ch1 or ch2:
+            report(cls, (ch1 or ch2)[0],
+                   f"{case['label']}: the objects given by the caller are changed "
+                   f"{'by construction' if ch1 else 'by the entry methods'}: {(ch1 or ch2)[:5]}",
+                   {"case": {"specification": case["label"], "when": "construction" if ch1 else "entry methods"},
+                    "implementation": {"changed": ch1 or ch2}, "specification": "caller's objects unchanged (sql_dialect slots aside)"},
+                   {"caller_objects_changed": True})
+        if o2 != o1 or ref != o1:
+            k = next(k for k in o1 if o1[k] != (o2 if o2 != o1 else ref)[k])
+            report(cls, "<second use differs>",
+                   f"{case['label']}: building the specification {'again from the same objects' if o2 != o1 else 'from fresh equal objects'} "
+                   f"gives a different {k}",
+                   {"case": {"specification": case["label"], "call": k}, "implementation": (o2 if o2 != o1 else ref)[k],
+                    "specification": o1[k]}, {"second_use_differs": True})
+        if un is not None and un != o1:
+            k = next(k for k in o1 if o1[k] != un[k])
+            report(cls, "<sharing a sub-creator changes the result>",
+                   f"{case['label']}: sharing one sub-creator object gives a different {k} than using two equal fresh ones",
+                   {"case": {"specification": case["label"], "call": k}, "implementation": o1[k], "specification": un[k]},
+                   {"sharing_differs": True})
+    ctx.cov["argument_cases"] = n
+
+
+SUPPORT_TABLE = os.path.join(os.path.dirname(__file__), "c17_supported.json")
+
+
+def check_support_table(ctx, observed, report):
+    """the pinned table of supported dialects per grid item and entry (a creator that starts refusing a
+    dialect it used to support is a change of behaviour, not "unsupported")"""
+    if not os.path.exists(SUPPORT_TABLE):
+        ctx.obligation("pinned table of supported dialects present", False, SUPPORT_TABLE)
+        return
+    pinned = json.load(open(SUPPORT_TABLE))
+    diffs = {k: (pinned.get(k), v) for k, v in observed.items() if pinned.get(k) != v}
+    ctx.obligation("supported dialects per grid item = pinned table", not diffs, str(list(diffs.items())[:4]))
+    ctx.cov["support_table_entries"] = len(pinned)
+    for k, (exp, got) in list(diffs.items())[:3]:
+        report(k.split(":", 1)[1].split("[")[0], "<supported dialects changed>",
+               f"{k} supports {got}, the pinned table says {exp}",
+               {"case": {"creator": k}, "implementation": got, "specification": exp}, {"support_table": True})
+
+
 def sequences(ctx, dialects):
     seqs = []
     if not dialects:
@@ -289,6 +383,7 @@ def correspondence(ctx: Ctx, grid, allp, only=None, baseline=None):
     from splink.internals.dialects import SplinkDialect
     progs = {p["name"]: p for p in allp}
     found_classes: dict = {}
+    expected_support: dict = {}
     terms, metas = [], []
     t0 = time.time()
     nparse = nparse_bad = 0
@@ -319,6 +414,13 @@ def correspondence(ctx: Ctx, grid, allp, only=None, baseline=None):
                 continue
             pname = f"{item['cls'].__module__.split('.')[-1]}.{cls}.{entry}"
             dialects, why = supported(item, entry)
+            for d, w in why.pop("__errors__", {}).items():
+                report(cls, "<raises>", f"{item['label']}.{entry}({d}) raises something other than the library's "
+                       f"unsupported-dialect refusal: {w}",
+                       {"case": {"creator": item["label"], "entry": entry, "dialect": d}, "implementation": w,
+                        "specification": "returns, or refuses the dialect with ValueError 'is not supported for' / "
+                                         "NotImplementedError 'does not have'"}, {"raises": True})
+            expected_support.setdefault(f"{ukey(item)}.{entry}", dialects)
             for d, w in why.items():
                 unsupported.setdefault(w.split(":")[0], 0)
                 unsupported[w.split(":")[0]] += 1
@@ -345,7 +447,7 @@ def correspondence(ctx: Ctx, grid, allp, only=None, baseline=None):
                 changed = diff_paths(before, after)
                 visible = [p for p in changed if p.split(".")[-1] != "sql_dialect"]
                 equal = jsonable(outs) == jsonable(fresh)
-                nontrivial = len(seq) >= 2
+                nontrivial = len(set(seq)) >= 2 or (len(seq) >= 2 and bool(written))
                 ctx.count_case((item["label"], entry, tuple(seq)), nontrivial,
                                {"creator": item["label"], "entry": entry, "sequence": seq, "changed": changed})
                 ctx.hist("sequence_length", len(seq))
@@ -406,6 +508,9 @@ def correspondence(ctx: Ctx, grid, allp, only=None, baseline=None):
                        {"case": {"creator": item["label"]}, "implementation": d2, "specification": ref}, {"dict_isolation": True})
     if baseline is not None and only is None:
         cross_instance_checks(ctx, grid, baseline[0], baseline[1], record_all(grid), report)
+    if only is None:
+        check_support_table(ctx, expected_support, report)
+        argument_cases(ctx, report)
     ctx.cov["sql_snippets_parsed"] = nparse
     ctx.cov["sql_snippets_unparsable"] = nparse_bad
     ctx.cov["unsupported_dialect_reasons"] = unsupported
